@@ -861,7 +861,7 @@ def naive_history_steps(ctx):
         if n > 7:       # naive decode costs up to 4^n candidates: bounded number of heavy syndromes
             light = [x for x in sat if table[syn_key(x)] <= 1]
             heavy = [x for x in sat if table[syn_key(x)] > 1]
-            sat = light + rng.sample(heavy, min(len(heavy), ctx.scale(5, 200)))
+            sat = light + rng.sample(heavy, min(len(heavy), ctx.scale(5, 40)))
             unsat = []
         elif 4 ** n > 2000:
             unsat = unsat[:ctx.scale(2, 8)]
@@ -893,7 +893,7 @@ def mwpm_history_steps(ctx, fam):
         pools[recipe] = [e for _, e in structured_errors(rng, Geo(recipe), info['n'], info['t'], 1.0)] \
             if info['t'] >= 1 else []
     steps = []
-    for rnd in range(ctx.scale(40, 200)):
+    for rnd in range(ctx.scale(40, 120)):
         order = list(pools)
         rng.shuffle(order)
         for recipe in order:
@@ -989,7 +989,7 @@ def run(ctx):
             if (R, C) in sizes:
                 errs, exh = lattice_errors(ctx, recipe, n, t, budget, mixed)
             elif (R, C) in extra:
-                errs, exh = lattice_errors(ctx, recipe, n, t, 15000, ctx.scale(100, 6000), structured_only=ctx.quick())
+                errs, exh = lattice_errors(ctx, recipe, n, t, 15000, ctx.scale(100, 4000), structured_only=ctx.quick())
             else:
                 errs, exh = lattice_errors(ctx, recipe, n, t, 15000, 2000, structured_only=True)
             sweep(ctx, recipe, (dec,), errs, exh, fam + '_mwpm', stats)
